@@ -33,7 +33,7 @@ Qed.
 
 Lemma source_key_ext r t st st' : reads_agree r t st st' -> source_key r st' t = source_key r st t.
 Proof.
-  intros H. unfold source_key.
+  intros H. unfold source_key. rewrite (hashed_tool_paths_all r t).
   rewrite (gather_ext (read r st) (read r st') (iter_sources r t)).
   - rewrite (gather_ext (read r st) (read r st') (tool_paths r t)); [reflexivity|].
     intros p Hp. eapply read_ext; [exact H|]. unfold all_reads. apply in_or_app. right. exact Hp.
@@ -907,7 +907,7 @@ Lemma source_key_streams r1 r2 st1 st2 t :
   = map (fun p => option_map stream (read r1 st1 p)) (tool_paths r1 t) ->
   source_key r2 st2 t = source_key r1 st1 t.
 Proof.
-  unfold source_key. intros -> H Ht.
+  unfold source_key. rewrite (hashed_tool_paths_all r2 t), (hashed_tool_paths_all r1 t). intros -> H Ht.
   pose proof (gather_key_streams (read r1 st1) (read r2 st2) _ H) as Ha.
   pose proof (gather_anon_streams (read r1 st1) (read r2 st2) _ _ Ht) as Hb.
   destruct (gather (read r2 st2) (iter_sources r1 t)) as [a2|], (gather (read r1 st1) (iter_sources r1 t)) as [a1|];
